@@ -275,6 +275,11 @@ func firstLines(s string, n int) string {
 	return strings.Join(ls, "\n")
 }
 
+// execRepeat > 1 makes every fresh process execute its scenario up to that
+// many times, until it shows a violation (set once a violation has turned out
+// to be intermittent).
+var execRepeat = 1
+
 // shrinkingHang is set while candidates of a non-terminating scenario are
 // tried: they get the short CPU limit.
 var shrinkingHang bool
@@ -313,6 +318,9 @@ func execSeq(env Env, p Property, phase Phase, prelude []json.RawMessage, raw []
 	}
 	if verbose {
 		args = append(args, "-v")
+	}
+	if execRepeat > 1 {
+		args = append(args, "-repeat", strconv.Itoa(execRepeat))
 	}
 	cmd := workerCmd(bin, phase.Race, args)
 	cmd.Env = os.Environ()
@@ -471,14 +479,19 @@ func report(env Env, p Property, ph Phase, seed uint64, fv *FoundViolation, know
 	if class == "" && err == nil && fv.V.Class != "data-race" && fv.V.Class != "process-crash" && fv.V.Class != "non-termination" {
 		// The library's answer may depend on something outside the scenario
 		// (map iteration order, an address, a helper goroutine): the same
-		// scenario is then wrong in some executions only. Fresh processes are
-		// cheap; a violation that shows up again within 40 of them is real and
-		// is reported as intermittent.
-		for i := 0; i < 40 && class != fv.V.Class; i++ {
+		// scenario is then wrong in some executions only. Executions are
+		// cheap; a violation that shows up again within 3 000 of them is real
+		// and is reported as intermittent.
+		// (12 processes of up to 250 executions each)
+		execRepeat = 250
+		for i := 0; i < 12 && class != fv.V.Class; i++ {
 			class, sig, detail, out, err = execOnce(env, p, ph, fv.Scenario, false)
 			if err != nil {
 				break
 			}
+		}
+		if class != fv.V.Class {
+			execRepeat = 1
 		}
 		if class == fv.V.Class {
 			intermittent = true
@@ -540,7 +553,7 @@ func report(env Env, p Property, ph Phase, seed uint64, fv *FoundViolation, know
 			}
 			tries := 1
 			if intermittent {
-				tries = 25
+				tries = 250
 			}
 			for i := 0; i < tries; i++ {
 				res, err := SafeExecute(p, sc, ph.Name, NewLog(false))
@@ -731,6 +744,9 @@ func ReplayFile(env Env, id, path string) int {
 	}
 	if ph.Name == "" {
 		ph = Phase{Name: r.Phase}
+	}
+	if r.Intermittent {
+		execRepeat = 250
 	}
 	class, sig, detail, out, err := execSeq(env, p, ph, r.Prelude, r.Scenario, true)
 	for i := 0; i < 80 && (r.Class == "data-race" || r.Intermittent) && err == nil && class != r.Class; i++ {
